@@ -176,7 +176,8 @@ fn gen_case_v<V: Value>(seed: u64, idx: u64, expr_mode: bool, mk: &dyn Fn(&Tree)
     let malformed_history = r.chance(1, 8);
     let mut earlier: Vec<u64> = backs[0].secs.iter().map(|s| s.addr).collect();
     if !has_backing { earlier.clear(); }
-    let mut ranges: Vec<Vec<(u64, u64)>> = vec![vec![], vec![], vec![]];
+    let mut ranges: Vec<Vec<(u128, u128)>> = vec![vec![], vec![], vec![]];
+    let mut top = 0u32;
     let (mut overlap, mut cross, mut wrapped, mut loads_none, mut loads_some, mut panicked) = (0u32, 0u32, 0u32, 0u32, 0u32, false);
     let mut kinds = std::collections::BTreeSet::new();
     let mut coq_ops: Vec<String> = vec![];
@@ -187,7 +188,9 @@ fn gen_case_v<V: Value>(seed: u64, idx: u64, expr_mode: bool, mk: &dyn Fn(&Tree)
         let k = r.below(100);
         let op = if k < 40 {
             let w = if malformed_history && r.chance(1, 4) { *r.pick(&BAD_WIDTHS) } else { *r.pick(&WIDTHS) };
-            let a = gen_addr(r, &bs, &earlier);
+            let mut a = gen_addr(r, &bs, &earlier);
+            // near the top of the address space: one store in three ends exactly at 2^64
+            if a > TOP - 64 && w >= 8 && r.chance(1, 3) { a = TOP - (w as u64 / 8) + 1; }
             let v = match r.below(6) { 0 => BigUint::from(0u32), 1 => (BigUint::from(1u32) << w) - BigUint::from(1u32), _ => r.big(w) };
             let t = if expr_mode { gen_tree(r, w, v) } else { Tree::Const(v, w) };
             Op::Store(h, a, t, w)
@@ -214,13 +217,14 @@ fn gen_case_v<V: Value>(seed: u64, idx: u64, expr_mode: bool, mk: &dyn Fn(&Tree)
                 let val = mk(&t);
                 let o = observe(|| hs[h].store(a, val.clone()));
                 if w >= 8 && w % 8 == 0 {
-                    match a.checked_add(bytes) {
-                        Some(end) => {
-                            if ranges[h].iter().any(|(s, e)| a < *e && *s < end) { overlap += 1; }
-                            if a / 1024 != (end - 1) / 1024 { cross += 1; }
-                            ranges[h].push((a, end));
-                        }
-                        None => wrapped += 1,
+                    let end = a as u128 + bytes as u128;
+                    if end <= 1u128 << 64 {
+                        if end == 1u128 << 64 { top += 1; }
+                        if ranges[h].iter().any(|(s, e)| (a as u128) < *e && *s < end) { overlap += 1; }
+                        if a as u128 / 1024 != (end - 1) / 1024 { cross += 1; }
+                        ranges[h].push((a as u128, end));
+                    } else {
+                        wrapped += 1;
                     }
                 }
                 earlier.push(a);
@@ -285,6 +289,7 @@ fn gen_case_v<V: Value>(seed: u64, idx: u64, expr_mode: bool, mk: &dyn Fn(&Tree)
     if overlap > 0 { tags.push("has:overlapping-store".into()); }
     if cross > 0 { tags.push("has:page-crossing-store".into()); }
     if wrapped > 0 { tags.push("has:wrapping-store".into()); }
+    if top > 0 { tags.push("has:store-ending-at-top".into()); }
     if loads_none > 0 { tags.push("has:load-none".into()); }
     if loads_some > 0 { tags.push("has:load-some".into()); }
     if panicked { tags.push("res:panic".into()); }
